@@ -28,6 +28,9 @@ Proof.
 Qed.
 Lemma copy_connectivity_answers_from_the_copy : copy_connectivity_backref = BackToCopy.
 Proof. reflexivity. Qed.
+(* three Euler angles given as a list / tuple mean rotations about the FIXED axes x, then y, then z *)
+Lemma euler_angles_about_fixed_axes : euler_seq = Fixed_xyz.
+Proof. reflexivity. Qed.
 Lemma translate_by_value : translate_param_by_value = true.
 Proof. reflexivity. Qed.
 Lemma ring_all_fresh N nc open : Forall (fun s => s = SFresh) (ring_pattern N nc open).
